@@ -1096,7 +1096,7 @@ def run(chk):
     chk.rng.shuffle(small)
     chk.rng.shuffle(big)
     progs = small[:n_small] + big[:n_big]
-    chk.notes["programs"] = {"generated_small": len(small), "generated_simulation": len(big), "run_through_real_code": len(progs),
+    chk.notes["program_counts"] = {"generated_small": len(small), "generated_simulation": len(big), "run_through_real_code": len(progs),
                              "max_sequence_length": maxlen, "longer_sequences_sampled_above": cap}
     chk.log("compiling and observing %d generated programs" % len(progs))
     results = common.pmap(gen_case, [(p, maxlen, chk.seed, cap) for p in progs], procs=14, chunksize=8)
